@@ -8,6 +8,7 @@
    the tokenizer-driven filter; it is a HYPOTHESIS of C03_chain (named, not an axiom) and is what the
    correspondence run exercises on the crate (every chunking is compared with the single chunk). *)
 Require Import RIO.Base RIO.TokMonad RIO.HtmlTok RIO.BodyText RIO.HtmlFilter RIO.ChainProofs RIO.BodyProofs.
+Require Import RIO.TokShift RIO.HtmlSplit.
 Close Scope N_scope.
 
 (* (1) the chain preserves chunk invariance *)
@@ -48,6 +49,63 @@ Example C03_example_html :
           (seq 0 (S (length doc))) = true.
 Proof. vm_compute. reflexivity. Qed.
 
+
+(* (3) The HTML stage (proofs: RIO.HtmlSplit, RIO.TokShift).  [tok_facts lower W] collects what is used about the
+   tokenizer besides prefix stability (C16_stable) and restart (RIO.TokShift.next_shift, proved): for an invariant W
+   of tokenizer states, [next] neither panics nor runs out of fuel, stays within the input, makes strict progress
+   on every complete token and keeps raw_tag among the raw-text element names — the totality facts of C16.
+   [stage_ok] = the stage is not in its error state (in_error), which it enters only when String::from_utf8 fails. *)
+
+(* the stage's loop is a fold over the token stream of the data: every complete token is processed in order, a
+   last text token containing '<' is held back together with the incomplete rest *)
+Theorem C03_html_fold : forall lower sel W, tok_facts lower W -> forall d F s out, tinv W d s ->
+  filter_loop lower sel (fuel_of d) F d s out
+  = spec_from lower sel (fst (toks lower (fuel_of d) d s)) (snd (toks lower (fuel_of d) d s)) F out.
+Proof. exact filter_loop_spec. Qed.
+
+(* the split law of the HTML stage, for EVERY state F of the stage and every pair of chunks, as long as the run on
+   c1 ++ c2 does not end in the error state; then the run on c1 does not either *)
+Theorem C03_html_stage_law : forall lower sel W, tok_facts lower W -> forall F c1 c2,
+  f_in_error (fst (hfb_filter lower sel F (c1 ++ c2))) = false ->
+  (let '(F1, o1) := hfb_filter lower sel F c1 in let '(F2, o2) := hfb_filter lower sel F1 c2 in (F2, o1 ++ o2))
+  = hfb_filter lower sel F (c1 ++ c2)
+  /\ f_in_error (fst (hfb_filter lower sel F c1)) = false.
+Proof. exact hfb_split_law_noerr. Qed.
+
+(* in the error state the stage is the identity *)
+Theorem C03_html_stage_law_in_error : forall lower sel F c1 c2, f_in_error F = true ->
+  (let '(F1, o1) := hfb_filter lower sel F c1 in let '(F2, o2) := hfb_filter lower sel F1 c2 in (F2, o1 ++ o2))
+  = hfb_filter lower sel F (c1 ++ c2).
+Proof. exact hfb_split_law_in_error_partial. Qed.
+
+(* chunk invariance of the whole body filter (any list of text and HTML filters, any chunking incl. empty chunks)
+   on every body for which no HTML stage ends in its error state when the body is fed as a single chunk *)
+Theorem C03_chunk_invariance : forall lower sel W ctok fs c cs, tok_facts lower W ->
+  Forall stage_ok (fst (cf stage (stage_tf lower sel) (stages_of ctok fs) (concat (c :: cs)))) ->
+  body_run lower sel ctok fs (c :: cs) = body_run lower sel ctok fs [concat (c :: cs)].
+Proof. intros lower sel W ctok fs c cs TF. exact (body_chunk_invariant lower sel W TF ctok fs c cs). Qed.
+
+(* The side condition cannot be dropped: on a body that is NOT valid UTF-8 the stage's error path releases the raw
+   bytes it holds, so what was already edited in an earlier chunk stays edited, while the single-chunk run returns
+   the whole body unedited.  (C03 quantifies over UTF-8 bodies.) *)
+Example C03_law_fails_on_invalid_utf8 :
+  let lw := map ascii_lower in
+  let sel := fun _ _ : str => false in
+  let v := {| v_kind := VAppend; v_tree := [[98;111;100;121]%N]; v_pos := 0; v_sel := None; v_content := [60;105;62]%N;
+              v_buffering := false; v_oob := false |} in
+  let c1 := [60;98;111;100;121;62;120;60;47;98;111;100;121;62]%N in        (* <body>x</body> *)
+  let c2 := [255;60;112;62;121]%N in                                        (* \xFF<p>y *)
+  let '(F1, o1) := hfb_filter lw sel (hfb_new v) c1 in
+  let '(F2, o2) := hfb_filter lw sel F1 c2 in
+  let '(F3, o3) := hfb_filter lw sel (hfb_new v) (c1 ++ c2) in
+  o1 ++ o2 = [60;98;111;100;121;62;120;60;105;62;60;47;98;111;100;121;62;255;60;112;62;121]%N   (* <body>x<i></body>\xFF<p>y *)
+  /\ o3 = c1 ++ c2 /\ f_in_error F3 = true.
+Proof. vm_compute. repeat split. Qed.
+
 Print Assumptions C03_chain.
 Print Assumptions C03_text_stage_law.
 Print Assumptions C03_text_filters.
+Print Assumptions C03_html_fold.
+Print Assumptions C03_html_stage_law.
+Print Assumptions C03_html_stage_law_in_error.
+Print Assumptions C03_chunk_invariance.
